@@ -27,7 +27,7 @@ KINDS = ["equal", "specified", "scale", "target", "invvol", "erc", "meanvar", "r
 
 def plan(tier):
     q = tier == "quick"
-    return [dict(unit="w3", n=700 if q else 20000, builds=["py"], case_timeout=300)]
+    return [dict(unit="w3", n=700 if q else 8000, builds=["py"], case_timeout=300)]
 
 
 def floors(tier):
